@@ -11,8 +11,12 @@ package cache
 // C04: the key is injective on (name, type, class, AD, CD, DO); two runs of
 // getMsgKey on arbitrary queries that yield the same non-empty key were given
 // the same question with the same DNSSEC flags.
-//@ func getMsgKey [C04, C03]
+// (C11) the key is the map key of the entry for as long as the entry lives, and it shares its
+// bytes with the buffer it was built in (unsafe conversion): that buffer is never handed to the
+// buffer pool, where the next user would overwrite the key under the cache's feet.
+//@ func getMsgKey [C04, C03, C11]
 //@   requires q != nil
+//@   ensures[C11] calls(bytesToStringUnsafe) >= 1 ==> calls(ReleaseBuf) == 0 && result == lastret(bytesToStringUnsafe)
 //@   ensures (result == "") == (q.Response || q.Opcode != 0 || len(q.Question) != 1)
 //@   relational ensures result1 == result2 && result1 != "" ==> q1.Question[0].Name == q2.Question[0].Name
 //@   relational ensures result1 == result2 && result1 != "" ==> q1.Question[0].Qtype == q2.Question[0].Qtype
